@@ -74,6 +74,11 @@ def progress(ctx):
             ctx.check(ok, d, "alternative refill source %s is consumed by a fresh decompressor" % unparse(src),
                       "on the path where the refill block comes from `%s` no byte of the underlying file is consumed: once the decompressor has reached end-of-stream it returns b'' "
                       "and puts its input back into unused_data, so the loop condition never changes (a valid file followed by extra bytes makes load() spin forever)" % unparse(src))
+    for c in dec:
+        limited = len(c.args) > 1 or kwarg(c, "max_length") is not None
+        tail = any("unconsumed_tail" in unparse(s_, 400) for s_ in lp.body)
+        ctx.check(not limited or tail, c, "decompress() delivers all output of the block it is given" + (" (bounded, with unconsumed_tail fed back)" if limited else ""),
+                  "decompress() is called with a max_length but unconsumed_tail is never fed back: the rest of a highly compressible block is silently dropped")
     # empty block => exit
     tests = [n for s in lp.body for n in walk_local(s) if isinstance(n, ast.If) and unparse(n.test) in ("not %s" % blk, "%s == b''" % blk, "len(%s) == 0" % blk)]
     ok = bool(tests) and all(isinstance(t.body[-1], (ast.Raise, ast.Return, ast.Break)) for t in tests)
@@ -353,6 +358,9 @@ def flush(ctx):
     for x in fl:
         conds = gc_.conditions_at(gc_.nodes_of(x))
         ctx.check(any(unparse(t) == "self._mode == _MODE_WRITE" and pol for (_, t, pol) in conds), x, "in write mode close() writes the compressor's final block")
+        extra = [(unparse(t), pol) for (_, t, pol) in conds if "self._mode" not in unparse(t)]
+        ctx.check(not extra, x, "on no other condition than the mode (an empty payload still gets a complete, decodable stream)",
+                  "the final flush is additionally conditioned on %s: some streams are left without their end marker" % extra)
         ctx.check(all(gc_.path_exists(gc_.nodes_of(x), gc_.nodes_of(y)) and not gc_.path_exists(gc_.nodes_of(y), gc_.nodes_of(x)) for y in cl + forget), x, "before the underlying file is closed / forgotten",
                   "the final block is written after the underlying file was closed")
     tr = [t for t in nodes_of_type(c, ast.Try) if t.finalbody]
@@ -465,6 +473,11 @@ def registry(ctx):
     ctx.check(len(sw) == 2 and any(unparse(c.args[0]) == "compressor.prefix" for c in sw), sw[0] if sw else dc, "detection compares the first bytes of the content with each registered prefix")
     rets = [r for r in nodes_of_type(dc, ast.Return)]
     ctx.check(any(const_value(r.value) == "not-compressed" for r in rets) and any(dotted(r.value) == "name" for r in rets), dc, "detection answers the matching compressor's name, else 'not-compressed'")
+    mp_ = [a for a in nodes_of_type(dc, ast.Assign) if isinstance(a.value, ast.Call) and call_name(a.value) == "_get_prefixes_max_len"]
+    pk = [c for c in calls_in(dc) if call_attr(c) in ("peek", "read") and c.args]
+    ctx.check(bool(mp_) and pk and all(dotted(c.args[0]) == mp_[0].targets[0].id for c in pk), mp_[0] if mp_ else dc,
+              "the number of leading bytes examined is computed from the registry at call time (compressors register after import)",
+              "the number of leading bytes examined is not computed from the registry at call time: longer magic numbers registered later are cut off")
     ml = ctx.repo.func(NPU, "_get_prefixes_max_len")
     ctx.check(any(isinstance(r.value, ast.Call) and call_name(r.value) == "max" for r in nodes_of_type(ml, ast.Return)), ml, "enough leading bytes are looked at for the longest prefix")
 
@@ -593,6 +606,15 @@ def dump_flow(ctx):
     ni = ctx.repo.func(NP, "NumpyPickler.__init__")
     pc = [c for c in calls_in(ni) if call_name(c) == "Pickler.__init__"]
     ctx.check(bool(pc) and dotted(kwarg(pc[0], "protocol", 2)) == "protocol" and dotted(pc[0].args[1]) == "self.file_handle", pc[0] if pc else ni, "NumpyPickler forwards protocol and file handle to pickle._Pickler")
+    ui = ctx.repo.func(NP, "NumpyUnpickler.__init__")
+    uc = [c for c in calls_in(ui) if call_name(c) == "Unpickler.__init__"]
+    ctx.need(pc and uc, "pickler/unpickler base constructors not found")
+    opts_w = {k.arg: unparse(k.value) for k in pc[0].keywords if k.arg in ("fix_imports", "buffer_callback")}
+    opts_r = {k.arg: unparse(k.value) for k in uc[0].keywords if k.arg in ("fix_imports", "encoding", "errors", "buffers")}
+    ctx.check(opts_w.get("fix_imports") == opts_r.get("fix_imports") and "encoding" not in opts_r and "errors" not in opts_r, uc[0],
+              "writer and reader use the same pickle compatibility options (fix_imports, encoding: defaults on both sides)",
+              "pickler options %s vs unpickler options %s: what one side writes under protocols 0-2 the other cannot resolve" % (opts_w, opts_r))
+    ctx.check(dotted(uc[0].args[1]) == "self.file_handle", uc[0], "the unpickler reads the validated file handle")
     t = [n for n in nodes_of_type(ni, ast.If) if unparse(n.test) == "protocol is None"]
     from ..core import has_stmt
     ctx.check(bool(t) and has_stmt(t[0].body, "protocol = pickle.DEFAULT_PROTOCOL"), t[0] if t else ni, "protocol defaults to pickle.DEFAULT_PROTOCOL")
